@@ -1120,6 +1120,37 @@ def setter(ctx):
             from_param = True
         out.append(Inst("SETTER", "%s::%s:forwards" % (ty, name), okn and from_param, b.site(0), "forwards to %s (argument from the parameter=%s)" % (sorted(names) or "nothing", from_param),
                         "builder field `%s` set from the caller's value" % want))
+    # the setters of the sending builders themselves (generated, or written by hand for the repeatable properties): a setter
+    # named after a field of its builder touches that field and no other (a will property pushed into the connection's
+    # list is on the wire, well formed, in the wrong section)
+    for f in ctx.facts.fns:
+        st = re.sub(r"<.*$", "", f.get("impl_self") or "")
+        if f["kind"] != "fn" or f.get("impl_trait") or not re.match(r"codec::\w+(::\w+)*::\w+TxBuilder$", st):
+            continue
+        ba = ctx.facts.adt(st)
+        if not ba or ba["kind"] != "struct":
+            continue
+        fields = {x["name"] for x in ba["variants"][0]["fields"]}
+        if f["name"] not in fields:
+            continue
+        b = ctx.world.body(f["path"])
+        try:
+            b = ctx.flat(b)
+        except AnchorLost:
+            pass
+        touched = set()
+        for i in sorted(b.reach):
+            for s_ in b.blocks[i]["stmts"]:
+                if s_["k"] != "assign":
+                    continue
+                for pl in ([s_["lhs"]] + ([s_["rv"]["pl"]] if s_["rv"]["k"] in ("ref", "addr") and (s_["rv"]["k"] == "addr" or s_["rv"].get("mut")) else [])):
+                    for (a_, n_) in place_fields(pl) or []:
+                        if a_ and re.sub(r"<.*$", "", a_) == st and isinstance(n_, str):
+                            touched.add(n_)
+        if not touched:
+            continue            # (nothing of the builder is written in a way this instance reads)
+        out.append(Inst("SETTER", "%s::%s:own-field-only" % (st.split("::")[-1], f["name"]), touched == {f["name"]}, b.site(0),
+                        "writes / mutably borrows the builder field(s) %s" % sorted(touched), "only `%s`" % f["name"]))
     return out
 
 
